@@ -1,4 +1,5 @@
-(** C06 proofs, part 7: with an acyclic load graph no error is ever produced. *)
+(** C06 proofs, part 7: with an acyclic load graph whose reachable modules do not fail by themselves no error is
+    ever produced. *)
 From Coq Require Import List Arith Bool Lia.
 From Dawn Require Import Loader.Model Loader.Step Loader.InvReg Loader.InvStk Loader.Graph.
 Import ListNotations.
@@ -7,8 +8,10 @@ Arguments upd : simpl never.
 
 Section NoErr.
 Variable loads : label -> list label.
+Variable bad : label -> bool.
 Variable roots : list label.
 Hypothesis Hacyc : acyclic loads roots.
+Hypothesis Hgood : forall m, from_roots loads roots m -> bad m = false.
 
 Definition noerr_ph (p : phase) : Prop := p <> PFail /\ p <> PRet false.
 
@@ -24,7 +27,7 @@ Proof.
 Qed.
 
 Lemma inv_noerr_step : forall s tid s', inv_noerr s -> inv_g loads roots s -> inv_stk s -> inv_reg s ->
-  kstep loads s tid s' -> inv_noerr s'.
+  kstep loads bad s tid s' -> inv_noerr s'.
 Proof.
   intros s tid s' [Nok Nph] IG IS IR K.
   assert (Hthr : forall (s0 : state) T0, thr s0 = thr s -> noerr_ph (ph T0) ->
@@ -36,7 +39,11 @@ Proof.
   pose proof (Nph tid) as [Hnf Hnr].
   destruct K.
   all: try (constructor; proj_simpl; [exact Nok|apply Hthr; auto; split; discriminate]).
-  - (* KDone *) constructor; proj_simpl.
+  - (* KDone: the module is one the packages reach, so its own code does not fail *)
+    assert (Hb : bad m = false).
+    { apply Hgood. apply (g_reg _ _ _ IG). eapply i_exreg; eauto.
+      eapply s_stex with (tid := tid); eauto. rewrite (labels_top _ _ _ _ _ H0). left; auto. }
+    rewrite Hb. cbn [negb]. constructor; proj_simpl.
     + intros m0. unfold set_done, upd. cbn. destruct (Nat.eqb m0 m); auto.
     + apply (Hthr (set_done s m true)); auto. apply Hpop.
   - (* KFail *) congruence.
